@@ -67,7 +67,9 @@ def smooth_body(case):
     with judge('smooth'):
         got = np.asarray(got)
         check(got.shape == x.shape and got.dtype == x.dtype, 'smooth:shape-or-dtype', lambda: dict(shape=got.shape, dtype=str(got.dtype)))
-        tol = (2e-6 if case['dtype'] == 'f4' else 1e-12) * np.maximum(1e-300, wmax) * w
+        # relative to the largest magnitude in the window, plus the spacing of subnormal numbers of the array's type (results in the
+        # subnormal range are rounded to that grid: 33.33 -> 33 units of 1.4e-45 was seen for float32)
+        tol = (2e-6 if case['dtype'] == 'f4' else 1e-12) * np.maximum(1e-300, wmax) * w + w * float(np.finfo(case['dtype']).smallest_subnormal)
         dev = np.abs(got.astype('f8') - ref)
         check(bool(np.all(dev <= tol)), 'smooth:wrong-value', lambda: dict(index=int(dev.argmax()), got=float(got[dev.argmax()]), want=float(ref[dev.argmax()]),
                                                                           width=case['width'], edge=case['edge'], n=n))
